@@ -116,14 +116,14 @@ def run_check(prop: str, tier: str, t0: float) -> int:
             except Exception as e:  # noqa: BLE001
                 # an exception that comes out of the code under test while a component is being set up or driven (a NameError in a
                 # helper every scheduler calls, say) is not a defect of the harness: the component's correspondence no longer checks
-                tb = traceback.extract_tb(e.__traceback__)
-                inside = [f for f in tb if str(common.SRC) in f.filename]
-                if not inside:
+                # (the formatted chain: an exception that crossed a thread or process pool carries its origin as text only)
+                text = "".join(traceback.format_exception(type(e), e, e.__traceback__))
+                where = [l.strip() for l in text.splitlines() if l.strip().startswith("File ") and str(common.SRC) in l]
+                if not where:
                     raise
-                f = inside[-1]
                 broken.append({"kind": "component-crashed", "component": getattr(comp, "__qualname__", str(comp)).split(".")[0],
-                               "detail": f"{type(e).__name__}: {e} raised in {Path(f.filename).name}:{f.lineno} ({f.name}) of the code under test",
-                               "traceback": "".join(traceback.format_exception(type(e), e, e.__traceback__))[-2500:]})
+                               "detail": f"{type(e).__name__}: {e} raised in the code under test ({where[-1][:160]})",
+                               "traceback": text[-2500:]})
     for r in results:
         for d in r.disagreements:
             broken.append({"kind": "correspondence", "component": d.component, "ops": d.ops, "model": d.model,
@@ -147,7 +147,7 @@ def run_check(prop: str, tier: str, t0: float) -> int:
         except Hang:
             broken.append({"kind": "search-hung", "detail": f"the failing-input search did not return within {limit} s"})
         except Exception as e:  # noqa: BLE001
-            if not [f for f in traceback.extract_tb(e.__traceback__) if str(common.SRC) in f.filename]:
+            if str(common.SRC) not in "".join(traceback.format_exception(type(e), e, e.__traceback__)):
                 raise
             broken.append({"kind": "search-crashed", "detail": f"{type(e).__name__}: {e} raised in the code under test during the failing-input search",
                            "traceback": "".join(traceback.format_exception(type(e), e, e.__traceback__))[-2500:]})
